@@ -90,3 +90,9 @@ def raw_param_uses(program, fi, idx, allow_call=lambda ftxt: False, **kw):
                         if txt not in bad:
                             bad.append(txt)
     return bad
+
+
+def crosscheck_many(ctx, rule, items, ref_file="ref_misc.py", **kw):
+    """items: (live qualname, reference name, class qualname or None, what)."""
+    for live, ref, cls, what in items:
+        crosscheck(ctx, rule, live, ref_file, ref, cls, what, **kw)
